@@ -1355,6 +1355,15 @@ def run(ck: core.Check):
 
     cases = [("witness:" + n, p) for n, p in witness_programs()]
     cases += [("targeted", p) for p in targeted_programs()]
+    # the literal table of operators the ORT-referenced macros emit, against the single-version models
+    for opn in sorted(L.ORT_MACROS):
+        for mv in (17, 18, 20):
+            try:
+                got = L.single(opn, mv, {})["ops"]
+            except Exception:  # noqa: BLE001
+                continue  # the single-version model cannot be built on this tree: nothing to compare
+            if got != L.ORT_EMITS[opn](mv):
+                ck.broken("correspondence", "C09 macro table", f"{opn}@v{mv} emits {got}, table says {L.ORT_EMITS[opn](mv)}")
     changed = list(info.get("ast_changed") or [])
     ck.cov["covered_functions"] = {"hashed": len(info.get("ast_hashes") or {}), "changed_since_pin": changed}
     cases += gen_programs(ck, escalate=bool(changed))
